@@ -191,6 +191,28 @@ def _fold(op, a, b):
     return None
 
 
+def _ap_binop(op, l, r):
+    """arithmetic progressions: ("ap", slope, first, rest) is the 1-D array with element 0 = first and element k>=1 = slope*k + rest;
+    ("ap-tail", slope, rest) its elements k>=1.  Closed under * / by and + - of a constant scalar."""
+    for a, k, swapped in ((l, r, False), (r, l, True)):
+        if isinstance(a.parts, tuple) and a.parts and a.parts[0] in ("ap", "ap-tail") and k.shape == () and k.has_const() and \
+                isinstance(k.const, (int, float)) and not isinstance(k.const, bool):
+            cst = k.const
+            nums = list(a.parts[1:])
+            if isinstance(op, ast.Mult):
+                nums = [x * cst for x in nums]
+            elif isinstance(op, ast.Div) and not swapped and cst != 0:
+                nums = [x / cst for x in nums]
+            elif isinstance(op, ast.Add):
+                nums = [nums[0]] + [x + cst for x in nums[1:]]
+            elif isinstance(op, ast.Sub) and not swapped:
+                nums = [nums[0]] + [x - cst for x in nums[1:]]
+            else:
+                return None
+            return (a.parts[0],) + tuple(nums)
+    return None
+
+
 def _ident_key(v):
     """identifies `the same array value` for the x - x[0] idiom: same storage, same shape, same provenance and typing"""
     return (v.origin, v.shape, v.tags, tuple(sorted(v.alg.items(), key=lambda kv: kv[0])), v.sign, v.dtype)
@@ -424,7 +446,7 @@ def binop(I, fr, op, l, r, node):
     if sym is not None and kind != K_SCALAR:
         sym = None
     return AV(kind=kind, dtype=dtype, origin=origin, shape=shape, sym=sym, alg=alg, sign=sign, mono=mono,
-              const=c, expo=expo, tags=tags_of(l, r), indef=indef_of(l, r), f0=f0, ext=ext,
+              const=c, expo=expo, tags=tags_of(l, r), indef=indef_of(l, r), f0=f0, ext=ext, parts=_ap_binop(op, l, r),
               note=pwnote if (pwnote is not None and c is _NOCONST) else
               ("integral" if (isinstance(op, (ast.Add, ast.Sub, ast.Mult)) and kind == K_SCALAR and
                               all(x.dtype in ("int", "bool") or x.note == "integral" for x in (l, r))) else None), rel=rel)
@@ -733,8 +755,27 @@ def subscript(I, fr, base, idx, node, quiet=False):
         if k in (0, -1):
             ext = ("lo" if k == 0 else "hi", tuple(sorted(b.origin)))
             tags = tags | frozenset(["sel:first" if k == 0 else "sel:last"])
+    if kind == K_SCALAR and len(comps) == 1 and comps[0] is not None and int_const(comps[0]) is not None and 0 <= int_const(comps[0]) <= 3 and \
+            b.dtype == "int":
+        tags = tags | frozenset(["at#%d" % int_const(comps[0])])      # element k of an index array (k small): orders later / earlier positions
     if kind == K_SCALAR and len(comps) == 1 and comps[0] is not None and comps[0].kind == K_SCALAR and comps[0].ext is not None:
         tags = tags | frozenset(["at:" + comps[0].ext[0]])     # element read at the smallest / largest index of an ascending index array
+    if kind == K_ARRAY and len(comps) == 1 and comps[0] is not None and comps[0].kind == K_SLICE and comps[0].items is not None and \
+            comps[0].note != "ellipsis":
+        lo_, up_, st_ = comps[0].items
+        stc = int_const(st_) if st_ is not None else None
+        if stc is not None and stc >= 2 and up_ is None:
+            loc_ = 0 if lo_ is None else int_const(lo_)
+            if loc_ is not None and 0 <= loc_ < stc:
+                tags = tags | frozenset(["stride:%d/%d" % (loc_, stc)])      # x[k::m]: every m-th element from k
+    parts_ = None
+    if kind == K_ARRAY and len(comps) == 1 and comps[0] is not None and comps[0].kind == K_SLICE and comps[0].items is not None and \
+            isinstance(b.parts, tuple) and b.parts and b.parts[0] == "ap":
+        lo_, up_, st_ = comps[0].items
+        if lo_ is not None and int_const(lo_) == 1 and up_ is None and st_ is None:
+            parts_ = ("ap-tail", b.parts[1], b.parts[3])
+        elif (lo_ is None or int_const(lo_) == 0) and st_ is None:
+            parts_ = b.parts          # a leading segment of the progression is the same progression
     note = None
     if len(comps) == 1 and int_const(comps[0]) == -1 and 0 in b.mono and kind == K_ARRAY:
         note = "lastof"
@@ -742,7 +783,7 @@ def subscript(I, fr, base, idx, node, quiet=False):
         note = ("first-of", _ident_key(b))
     return AV(kind=kind, dtype=b.dtype, origin=origin, shape=shape, alg=alg, sign=b.sign,
               mono=frozenset(mono_map.values()), tags=tags, indef=indef, f0=f0,
-              sym=None, const=_NOCONST, ext=ext, note=note)
+              sym=None, const=_NOCONST, ext=ext, note=note, parts=parts_)
 
 
 def join_all(items):
@@ -1500,7 +1541,7 @@ def _arange(C):
         ln = stop.sym if stop.sym is not None else LinExpr(fresh_atom("$d"))
         return AV(kind=K_ARRAY, dtype="int" if stop.dtype in ("int", "bool") else "real", shape=(ln,),
                   alg=_ctor_alg(dict(stop.alg)), sign=S_NONNEG, mono=frozenset([0]), origin=C.fresh(),
-                  tags=stop.tags | frozenset(["arange0"]), indef=stop.indef, f0=True, note="arange")
+                  tags=stop.tags | frozenset(["arange0"]), indef=stop.indef, f0=True, note="arange", parts=("ap", 1, 0, 0))
     start, stop = vs[0], vs[1]
     step = vs[2] if len(vs) > 2 else const_av(1)
     ln = None
@@ -1955,12 +1996,30 @@ def _ediff1d(C):
               indef=indef_of(v, *extra))
 
 
+def _part_desc(x):
+    if x.kind in (K_SCALAR, K_BOOL) or x.shape == ():
+        if x.has_const():
+            return ("const", x.const)
+        if x.sym is not None:
+            return ("sym", repr(x.sym))
+        return ("val", x.tags)
+    return None
+
+
+def _base_parts(v):
+    return v.parts if v.parts is not None else (("arr", v.tags),)
+
+
 @lib("numpy.insert", doc="fresh copy with values inserted before index obj along axis (flattened when axis None)")
 def _insert(C):
     v = C.num(0)
     obj = C.arg(1, "obj")
     vals = C.num(2, "values")
     ax, known = axis_of(C, v, 3)
+    return _insert_core(C, v, obj, vals, ax, known)
+
+
+def _insert_core(C, v, obj, vals, ax, known):
     shape = None
     k = None
     if v.shape is not None:
@@ -1994,8 +2053,15 @@ def _insert(C):
         mono = frozenset([k])
     f0 = (at_start and vals.sign == S_ZERO and v.shape is not None and len(v.shape) == 1) or \
          (v.f0 and not at_start and const_num(objn) is not None and const_num(objn) > 0)
+    parts = None
+    pd = _part_desc(vals)
+    if pd is not None and v.shape is not None and len(v.shape) == 1:
+        if at_start:
+            parts = (pd,) + _base_parts(v)
+        elif objn.sym is not None and v.shape[0] is not None and objn.sym == v.shape[0]:
+            parts = _base_parts(v) + (pd,)
     return AV(kind=K_ARRAY, dtype=dtype_join(v.dtype, vals.dtype), shape=shape, alg=alg, sign=sign_join(v.sign, vals.sign),
-              mono=mono, origin=C.fresh(), tags=tags_of(v, vals, objn), indef=indef_of(v, vals, objn), f0=f0)
+              mono=mono, origin=C.fresh(), tags=tags_of(v, vals, objn), indef=indef_of(v, vals, objn), f0=f0, parts=parts)
 
 
 @lib("numpy.append", doc="fresh flattened concatenation")
@@ -2026,6 +2092,27 @@ def _delete(C):
      doc="fresh concatenation along axis 0 (lengths add)")
 def _concatenate(C):
     seq = C.arg(0)
+    short_ = C.name.split(".")[-1]
+    # ([c], arr, [d]): literal one-element pieces around one array are insertions at the front / at the end (same typing as np.insert)
+    if short_ in ("concatenate", "hstack") and seq is not None and seq.items is not None and len(seq.items) >= 2:
+        arrs = [i for i in seq.items if not (i.kind in (K_LIST, K_TUPLE) and i.items is not None)]
+        lits = [i for i in seq.items if i.kind in (K_LIST, K_TUPLE) and i.items is not None]
+        if len(arrs) == 1 and lits and all(len(i.items) == 1 and as_num(i.items[0]).shape == () for i in lits):
+            core = as_num(arrs[0])
+            if core.kind == K_ARRAY and core.shape is not None and len(core.shape) == 1:
+                k = [j for j, i in enumerate(seq.items) if i is arrs[0]][0]
+                res = core
+                for i in reversed(seq.items[:k]):
+                    res = _insert_core(C, res, const_av(0), as_num(i.items[0]), None, True)
+                for i in seq.items[k + 1:]:
+                    end = AV(kind=K_SCALAR, dtype="int", shape=(), sym=res.shape[0], sign=S_NONNEG, origin=frozenset(["lit"])) \
+                        if res.shape is not None and res.shape[0] is not None else None
+                    if end is None:
+                        res = None
+                        break
+                    res = _insert_core(C, res, end, as_num(i.items[0]), None, True)
+                if res is not None:
+                    return res
     parts = [as_num(i) for i in seq.items] if seq is not None and seq.items is not None else None
     if parts is None:
         v = as_num(seq) if seq is not None else None
